@@ -290,6 +290,8 @@ pub struct Receiver {
     tx: mpsc::Sender<PortEvt>,
     rx: mpsc::UnboundedReceiver<PortReceiveMsg>,
     receiving: Receiving,
+    /// Message taken from the queue by `recv_chunk` that belongs to the next transmission.
+    unread: Option<PortReceiveMsg>,
     credits: ChannelCreditReturner,
     closed: bool,
     finished: bool,
@@ -333,6 +335,7 @@ impl Receiver {
             tx,
             rx,
             receiving: Receiving::Nothing,
+            unread: None,
             credits,
             closed: false,
             finished: false,
@@ -380,6 +383,14 @@ impl Receiver {
         self.max_ports = max_ports;
     }
 
+    /// Receives the next message from the port queue.
+    async fn next_msg(&mut self) -> Option<PortReceiveMsg> {
+        match self.unread.take() {
+            Some(msg) => Some(msg),
+            None => self.rx.recv().await,
+        }
+    }
+
     /// Receives data over the channel.
     ///
     /// Waits for data to become available.
@@ -424,18 +435,21 @@ impl Receiver {
                 }
 
                 // Try to receive next chunk.
-                _ => match self.rx.recv().await {
+                _ => match self.next_msg().await {
+                    // First segment without last segment indicates that last transmission
+                    // was cancelled. Keep the segment for the next receive operation.
+                    Some(PortReceiveMsg::Data(data))
+                        if data.first && matches!(&self.receiving, Receiving::Chunks { .. }) =>
+                    {
+                        self.unread = Some(PortReceiveMsg::Data(data));
+                        self.receiving = Receiving::Nothing;
+                        return Err(RecvChunkError::Cancelled);
+                    }
+
                     Some(PortReceiveMsg::Data(data)) => {
                         self.credits.start_return(data.credit, self.remote_port, &self.tx);
 
                         match (&self.receiving, data.first) {
-                            // First segment without last segment indicates that last transmission
-                            // was cancelled.
-                            (Receiving::Chunks { .. }, true) => {
-                                self.receiving =
-                                    Receiving::Chunks { chunks: vec![data.buf].into(), completed: data.last };
-                                return Err(RecvChunkError::Cancelled);
-                            }
                             // Either continuation or start of transmission.
                             (Receiving::Chunks { .. }, false) | (_, true) => {
                                 self.receiving =
@@ -447,13 +461,18 @@ impl Receiver {
                         }
                     }
 
-                    // Either aborted transmission or port data to ignore.
+                    // Aborted transmission. Keep the port data for the next receive operation.
+                    Some(PortReceiveMsg::PortRequests(req))
+                        if matches!(&self.receiving, Receiving::Chunks { .. }) =>
+                    {
+                        self.unread = Some(PortReceiveMsg::PortRequests(req));
+                        self.receiving = Receiving::Nothing;
+                        return Err(RecvChunkError::Cancelled);
+                    }
+
+                    // Port data to ignore.
                     Some(PortReceiveMsg::PortRequests(req)) => {
                         self.credits.start_return(req.credit, self.remote_port, &self.tx);
-                        if let Receiving::Chunks { .. } = &self.receiving {
-                            self.receiving = Receiving::Nothing;
-                            return Err(RecvChunkError::Cancelled);
-                        }
                     }
 
                     // Port closure.
@@ -482,7 +501,7 @@ impl Receiver {
         loop {
             self.credits.return_flush().await;
 
-            match self.rx.recv().await {
+            match self.next_msg().await {
                 // Data message.
                 Some(PortReceiveMsg::Data(data)) => {
                     self.credits.start_return(data.credit, self.remote_port, &self.tx);
